@@ -91,6 +91,20 @@ CLAIMS = {
    note="the listing text itself (names, operand printing) is tied by comparison with the model's `listing`, not by a theorem; recompilation of the listing goes through the unmodelled parser.",
    technique="Lean 4 proof (decoder progress and encode-after-decode identity, decide +kernel table obligations) + watchdog/recording-Tape oracle + exhaustive short-string digest comparison",
    design="§5 C12"),
+ 'C17': dict(
+   text="Proved for any commutative group with base point of order dividing L: the adapter (R, sa = r + ca*x mod L) satisfies the adapter check sa*G = R + ca*X; decrypting with t gives (R+T, sa+t) satisfying the Ed25519 equation under the signer's key with the same challenge; t = s - sa (mod L) is recovered; "
+        "the adapter itself (T != 0) and a decryption with any scalar whose point is not T are not signatures; bridge lemmas: the model's scalarAdd / scalarMul / derivePoint are exactly that mod-L arithmetic / (n mod 2^255)*B. "
+        "Tie: the four adapter instructions and the builders (locks pub/prv, witness, decrypt, decrypt_adapter) on random and edge scalars, messages of 0-512 bytes, every input single-bit-corrupted, histories with several adapters in one cache, judged on the implementation alone by independent integer / PyNaCl arithmetic and Ed25519 verify, and compared with the model.",
+   note="the link from the byte-level instruction terms to the group equations (clamping, encodings, challenge hashing) is exercised differentially, not proved; the PRIVATE construction is known finding K4; cryptographic statements ('fails if altered') are exercised, not theorems.",
+   technique="Lean 4 proof (group algebra over an abstract AddCommGroup, Mathlib abel) + independent-arithmetic oracle + differential correspondence",
+   design="§5 C17"),
+ 'C18': dict(
+   text="Proved for any commutative group, base point G, L*G = 0, 0 < L: hop i's tweak point (running sum of points) is the point of the running sum of secrets; a party's view is consistent (Y_{i-1} + y_i*G = Y_i); the final key (sum of all secrets mod L) opens the last lock; release(k, y) = k - y mod L turns a key for Y_i into a key for Y_{i-1}; "
+        "the whole right-to-left cascade from the final key yields, for every hop, a key opening exactly that hop's lock (induction over the released suffix). "
+        "Tie: AMHL.setup / setup_for / check_setup / release / verify_lock_key and setup_amhl / make_adapter_witness / decrypt_adapter / release_left_amhl_lock for chains of 2-8 with and without refund keys, seeds incl. empty and None, repeated and interleaved setups in one process, scalars of other hops, all judged on the implementation alone by independent integer / PyNaCl arithmetic.",
+   note="group-level only: encodings / clamping of the sampled secrets and the adapter byte offsets (witness[2:34]) are exercised, not proved.",
+   technique="Lean 4 proof (group algebra, induction over the hop list, Mathlib) + independent-arithmetic oracle over setup histories",
+   design="§5 C18"),
  'C10': dict(
    text="Lean theorems over all integers / all byte strings: bytesToInt (intToBytes n) = some n, decoding total exactly on non-empty strings, decoded range, "
         "top bit of the encoding = sign, and minimality of the encoding (no shorter string decodes to n). The model is tied to int_to_bytes / bytes_to_int / "
